@@ -908,6 +908,20 @@ func (a *effectsAnalysis) callResultProv(x *ssa.Call, idx int) Prov {
 	for _, f := range callees {
 		sum := a.sum[f]
 		if sum == nil {
+			// a function value resolved to a library function or to a bound
+			// method of a library interface (em.Marshal handed to a helper): its
+			// model says what the result may reference
+			if c.StaticCallee() == nil && !c.IsInvoke() {
+				if m, ok := lookupModel(externalModelName(f)); ok {
+					resolved = true
+					p.Fresh = true
+					for _, i := range m.Retains {
+						if i < len(full) {
+							p.merge(a.get(full[i]))
+						}
+					}
+				}
+			}
 			continue
 		}
 		resolved = true
@@ -991,6 +1005,14 @@ func (a *effectsAnalysis) closureEffects(ef *Effects, mc *ssa.MakeClosure) {
 	}
 	sum := a.sum[f]
 	if sum == nil {
+		// a bound method value of a library type (em.Marshal): creating it has
+		// no effect; what calling it does is decided where it is called, from
+		// the model of the method
+		if strings.HasSuffix(f.Name(), "$bound") {
+			if _, ok := lookupModel(externalModelName(f)); ok {
+				return
+			}
+		}
 		if !ef.WritesUnknown {
 			ef.WritesUnknown = true
 			a.changed = true
@@ -1150,6 +1172,13 @@ func (a *effectsAnalysis) callEffects(fn *ssa.Function, ef *Effects, site ssa.Ca
 		// is guarded by a nil test or panics — C05's concern)
 		if prm, isPrm := c.Value.(*ssa.Parameter); isPrm {
 			if fs := a.w.paramFuncs(a.w.CallGraph(), site.Parent(), prm, 0); fs != nil && len(fs) == 0 {
+				return
+			}
+		}
+		// a hook variable nothing ever assigns is nil: the call (guarded by a
+		// nil test, or a panic) has no callee and no effect
+		if ld, isLd := c.Value.(*ssa.UnOp); isLd {
+			if gv, isG := ld.X.(*ssa.Global); isG && a.w.nilFuncVar(gv) {
 				return
 			}
 		}
@@ -1324,6 +1353,21 @@ func (a *effectsAnalysis) applyParamCalls(fn *ssa.Function, ef *Effects, site ss
 			hs = a.full[b.h]
 		}
 		if hs == nil {
+			// a library function or a bound method of a library interface: the model decides
+			if m, ok := lookupModel(externalModelName(b.h)); ok {
+				off := 0
+				if strings.HasSuffix(b.h.Name(), "$bound") {
+					off = 1 // the model counts the receiver first; it is bound, not passed
+				}
+				for _, wi := range m.Writes {
+					if j := wi - off; j >= 0 && j < len(args) {
+						a.write(ef, args[j], WriteSite{Instr: site, What: "call " + f.String() + " → callback " + externalModelName(b.h), Prov: args[j]})
+					}
+				}
+				continue
+			}
+		}
+		if hs == nil {
 			if !ef.WritesUnknown {
 				ef.WritesUnknown = true
 				a.changed = true
@@ -1363,6 +1407,16 @@ func (a *effectsAnalysis) applyParamCalls(fn *ssa.Function, ef *Effects, site ss
 		}
 	}
 	return true
+}
+
+// externalModelName: the model-table name of a function value's target: the
+// function's own name, or "invoke <iface>.<method>" for the bound-method
+// wrapper of an interface value.
+func externalModelName(f *ssa.Function) string {
+	if strings.HasSuffix(f.Name(), "$bound") && len(f.FreeVars) == 1 {
+		return "invoke " + f.FreeVars[0].Type().String() + "." + strings.TrimSuffix(f.Name(), "$bound")
+	}
+	return f.String()
 }
 
 // argPointeeProv: provenance of the memory an argument refers to. For the
